@@ -302,6 +302,29 @@ def execute(case, scratch):
                     out.violation("after forget_all and recompute the result is not memoized again", symptom="not-rememoized")
                 _check_result(out, case, spec, reference, again2[0], again2[1], "after forget_all 2", results[0])
                 del held
+        # equal arguments: a structured argument given a second time with every dictionary in it built in the opposite
+        # insertion order is the same call (served, not run); forgetting it under one spelling forgets it under the other
+        if not out.violations and case.get("eqarg") is not None:
+            from vlib import afuncs, argspec
+            from checks.c04 import _permute_dicts
+            a1 = argspec.build_arg(case["eqarg"])
+            a2 = _permute_dicts(argspec.build_arg(case["eqarg"]), True)
+            rt.take()
+            r1 = afuncs.g1(a1)
+            n1 = len([x for x in rt.take() if x[0] == "g1"])
+            r2 = afuncs.g1(a2)
+            n2 = len([x for x in rt.take() if x[0] == "g1"])
+            if n1 != 1 or n2 != 0 or r1 != r2:
+                out.violation("g1(a) ran %d times and g1(a with dictionaries in the opposite insertion order) %d times (expected 1 and 0), results %r / %r" % (n1, n2, r1, r2),
+                              symptom="equal-arguments-run-twice")
+            else:
+                afuncs.g1.forget(a2)
+                afuncs.g1(a1)
+                n3 = len([x for x in rt.take() if x[0] == "g1"])
+                if n3 != 1:
+                    out.violation("after forget(a with dictionaries in the opposite insertion order) the call g1(a) ran %d times (expected 1)" % n3,
+                                  symptom="forget-ineffective", equal_spelling=True)
+            labels_extra.append("equal-arguments-other-dict-order")
         return _fin(out, case)
     except Exception as e:
         sig = lib_exception_signature(e)
@@ -399,10 +422,16 @@ def strategy():
     nested = S.containers(st.one_of(S.scalar, S.nd(), S.series(), S.frame(), S.index, S.result_value))
     result = st.one_of(S.scalar, S.nd(), S.nd(), S.series(), S.frame(), S.frame(), S.index, nested, nested,
                        S.result_value, S.partition, S.partition, exc, exc, big)
+    from vlib import argspec
+    A = argspec.strategies()
+    # an argument that contains at least one dictionary with two keys (somewhere: top level, in a list, in a dictionary)
+    two = st.dictionaries(S.text_key if hasattr(S, "text_key") else S.ident, A.simple, min_size=2, max_size=3).map(lambda v: {"t": "dict", "v": v})
+    eqarg = st.one_of(st.none(), st.none(), two, st.lists(two, min_size=1, max_size=2).map(lambda v: {"t": "list", "v": v}),
+                      st.builds(lambda a, b: {"t": "dict", "v": {"p": a, "q": {"t": "list", "v": [b]}}}, two, two))
     return st.builds(
-        lambda r, b, kb, mod: {"result": r, "backend": b, "budget_kb": kb, "modifier": mod},
+        lambda r, b, kb, mod, ea: {"result": r, "backend": b, "budget_kb": kb, "modifier": mod, "eqarg": ea},
         result, st.sampled_from(["fs", "fsc", "fsc", "mem"]), st.sampled_from([0.25, 2, 2, 64, 16384]),
-        st.sampled_from(["plain", "plain", "plain", "ignore_result", "ignore_result", "force_local", "force_local", "monitor_progress", "force_local+monitor_progress", "ignore_result_off"]))
+        st.sampled_from(["plain", "plain", "plain", "ignore_result", "ignore_result", "force_local", "force_local", "monitor_progress", "force_local+monitor_progress", "ignore_result_off"]), eqarg)
 
 
 def run_shard(ctx):
